@@ -18,7 +18,10 @@ Definition dnode := (list nat * bool * list (nat * list nat) * list (nat * list 
 
 Inductive rcase :=
 | CHist (wga : bool) (inject : list (nat * nat)) (steps : list hstep)
-        (nhandles : nat) (complete : bool) (dump_at : nat) (dump : list dnode) (returned : bool) (gdelta : nat).
+        (nhandles : nat) (complete : bool) (dump_at : nat) (dump : list dnode) (returned : bool) (gdelta : nat)
+(** a gated concurrent scenario: the whole backend call log in order, the probe requests issued
+    afterwards (their calls are part of [log]); judged by [property_holds] only *)
+| CGated (log : list bcall) (probes : list hstep) (nhandles : nat) (returned : bool) (gdelta : nat).
 
 (** ---- canonical forms ---- *)
 Fixpoint list_leb (a b : list nat) : bool :=
@@ -152,6 +155,7 @@ Definition agrees (c : rcase) : bool :=
       let '(ok1, s1) := agree_steps (firstn k steps) (init_state pfs (pfs_init wga inject)) in
       let '(ok2, s2) := agree_steps (skipn k steps) s1 in
       ok1 && ok2 && (s_nexth pfs s2 =? nh) && dump_eqb (dump_tree s1) dump
+  | CGated _ _ _ _ _ => true
   end.
 
 (** index (0-based) of the first step on which model and implementation differ, for diagnostics *)
@@ -168,10 +172,12 @@ Fixpoint first_diff (steps : list hstep) (s : st) (i : nat) : option (nat * repl
 Definition diagnose (c : rcase) :=
   match c with
   | CHist wga inject steps _ _ _ _ _ _ => first_diff steps (init_state pfs (pfs_init wga inject)) 0
+  | CGated _ _ _ _ _ => None
   end.
 Definition model_dump (c : rcase) :=
   match c with
   | CHist wga inject steps _ _ k _ _ _ => dump_tree (snd (agree_steps (firstn k steps) (init_state pfs (pfs_init wga inject))))
+  | CGated _ _ _ _ _ => []
   end.
 
 (** ---- the properties, on the observed behaviour only ---- *)
@@ -267,6 +273,8 @@ Definition property_holds (c : rcase) : bool :=
       (if complete then all_closed_once nh lg && returned && (gdelta =? 0) else true) &&
       steps_ok inject 0 steps &&
       forallb (fun d => match d with (_, _, r, n) => view_eqb r n end) dump
+  | CGated lg probes nh returned gdelta =>
+      lifecycle_ok [] lg && all_closed_once nh lg && returned && (gdelta =? 0) && forallb (step_ok false) probes
   end.
 
 Fixpoint failing (f : rcase -> bool) (i : nat) (l : list rcase) : list nat :=
